@@ -9,6 +9,8 @@ ASSUMPTIONS = []
 HARNESSES = [
     dict(name="split_line_unb", file="w15_split_line_unb.c", label="proved",
          loops=["split_line"], loop_tables=["C07_w15"], defines=CT,
-         unwindset=["strchr.0:4"], timeout=900, weight=4,
-         cases=[dict(id="max4095", defines={"SPLIT_MAX": 4095, "__NO_CTYPE": None}, tier="quick")]),
+         unwindset=["strchr.0:4"],
+         pre_instrument_flags=["--replace-calls", "append_arg:stub_append_arg"], timeout=900, weight=4,
+         cases=[dict(id="max255", defines={"SPLIT_MAX": 255, "__NO_CTYPE": None}, tier="quick", timeout=200),
+                dict(id="max4095", defines={"SPLIT_MAX": 4095, "__NO_CTYPE": None}, tier="thorough", timeout=300)]),
 ]
